@@ -675,6 +675,95 @@ static void stream_checks(const unsigned char *E, size_t N, int sockets) {
 }
 
 /* ------------------------------------------------------------------ element codec edits: remove / set on a parsed element */
+/* tree codec edits on a PARSED element (it owns a copy of the encoding): expand, append a child and / or replace a child by another one
+ * (shorter, longer, much longer), then serialize - directly, or after the payload getter has collapsed the element in place. Expected:
+ * the reference encoding of the edited tree; an edited tree that no longer fits is refused; nothing is freed twice or written outside. */
+static void tlv_edit_checks(Node *t, const unsigned char *E) {
+	static const size_t lens[] = {0, 1, 3, 40, 254, 255, 256, 300, 2000, 70000}; static unsigned turn;
+	KSI_TLV *tlv = NULL, *nc = NULL; KSI_LIST(KSI_TLV) *list = NULL; unsigned char *in; int rc, op, collapse; size_t j = 0, k; Node *leaf = NULL, *old = NULL; unsigned char *pv;
+	if (!t->comp || !t->fits) return;
+	turn++;
+	in = vh_exact(E, t->elen);
+	rc = KSI_TLV_parseBlob(ctx, in, t->elen, &tlv);
+	vh_exact_free(in, t->elen);
+	if (rc != KSI_OK || !tlv) return;                 /* reported by parse_all */
+	if (KSI_TLV_getNestedList(tlv, &list) != KSI_OK || (t->nk && !list)) { KSI_TLV_free(tlv); return; }
+	op = (int)(turn % 4); if (t->nk == 0 && op != 3) op = 0;      /* 0 append, 1 replace, 2 replace + append, 3 raw value set on the parsed element itself */
+	collapse = (int)((turn / 4) % 2);
+	k = lens[vh_below(sizeof lens / sizeof *lens)];
+	if (k > 60000 && vh_below(4)) k = 300;             /* the oversize edit now and then only */
+	pv = malloc(k + 1); { size_t i; for (i = 0; i < k; i++) pv[i] = (unsigned char)(0x5A ^ (i * 3)); }
+	if (op == 3) {
+		/* the parsed element (expanded above) gets a raw value of k bytes - shorter or longer than what it was parsed with */
+		Node lf; unsigned char *exp, *b = NULL; size_t l = 0;
+		case_sub(" raw value of %zu bytes set on the parsed element", k);
+		rc = KSI_TLV_setRawValue(tlv, k ? pv : NULL, k);
+		vh_eval++;
+		if (k > 0xffff) { if (rc == KSI_OK) vh_viol("tlv.edit:setRawValue:oversize:accepted", tdesc, "KSI_TLV_setRawValue(%zu bytes) accepted", k); else vh_count("setRawValue_oversize_refused", 1); }
+		else if (rc != KSI_OK) vh_viol("tlv.edit:setRawValue:fitting-payload:refused", tdesc, "KSI_TLV_setRawValue(%zu bytes) on a parsed element (%zu bytes of content before) res=0x%x", k, t->clen, rc);
+		/* whatever the answer was, the element must still serialize to something it really holds */
+		rc = KSI_TLV_serialize(tlv, &b, &l);
+		if (k <= 0xffff) {
+			memset(&lf, 0, sizeof lf); lf.tag = t->tag; lf.nc = t->nc; lf.fwd = t->fwd; lf.pl = pv; lf.pln = k; measure(&lf);
+			exp = malloc(lf.elen + 8); enc(&lf, exp, NULL);
+			judge("tlv.edit", "parse+KSI_TLV_setRawValue+KSI_TLV_serialize", 0, exp, lf.elen, 0, 0, (size_t)1 << 19, rc, rc == KSI_OK ? b : NULL, l);
+			if (rc == KSI_OK && l == lf.elen) vh_count("tree_edits_ok", 1);
+			free(exp);
+		} else if (rc == KSI_OK && l > 4 + 0xffff) vh_viol("tlv.edit:serialize-after-refused-setRawValue:oversize", tdesc, "after a refused KSI_TLV_setRawValue(%zu) the element serializes to %zu bytes", k, l);
+		if (rc == KSI_OK) KSI_free(b);
+		goto done;
+	}
+	leaf = leaf_new((unsigned)(1 + vh_below(0x1e)), (int)vh_below(2), (int)vh_below(2), pv, k);
+	case_sub(" tree edit on parsed element: op=%d new-leaf tag=0x%x len=%zu collapse-first=%d", op, leaf->tag, k, collapse);
+	if (KSI_TLV_new(ctx, leaf->tag, leaf->nc, leaf->fwd, &nc) != KSI_OK) die("KSI_TLV_new");
+	rc = KSI_TLV_setRawValue(nc, k ? pv : NULL, k);
+	if (rc != KSI_OK) { /* a payload beyond the length field is refused here already */ KSI_TLV_free(nc); KSI_TLV_free(tlv); node_free(leaf); free(pv); if (k <= 0xffff) vh_viol("tlv.setRawValue:fitting-payload:refused", tdesc, "KSI_TLV_setRawValue(%zu) res=0x%x", k, rc); else vh_count("setRawValue_oversize_refused", 1); return; }
+	if (op >= 1) {
+		KSI_TLV *oc = NULL; j = vh_below(t->nk);
+		if (KSI_TLVList_elementAt(list, j, &oc) != KSI_OK || !oc) die("elementAt");
+		rc = KSI_TLV_replaceNestedTlv(tlv, oc, nc);
+		if (rc != KSI_OK) { vh_viol("tlv.replaceNestedTlv:refused", tdesc, "KSI_TLV_replaceNestedTlv(child %zu) res=0x%x", j, rc); KSI_TLV_free(nc); goto done; }
+		old = t->kid[j]; t->kid[j] = leaf;
+		if (op == 2) {
+			KSI_TLV *nc2 = NULL; Node *leaf2 = leaf_new(0x11, 0, 0, pv, k > 7 ? 7 : k);
+			if (KSI_TLV_new(ctx, 0x11, 0, 0, &nc2) != KSI_OK || KSI_TLV_setRawValue(nc2, pv, k > 7 ? 7 : k) != KSI_OK) die("KSI_TLV_new");
+			rc = KSI_TLV_appendNestedTlv(tlv, nc2);
+			if (rc != KSI_OK) { vh_viol("tlv.appendNestedTlv:refused", tdesc, "KSI_TLV_appendNestedTlv res=0x%x", rc); KSI_TLV_free(nc2); node_free(leaf2); t->kid[j] = old; old = NULL; node_free(leaf); leaf = NULL; goto done; }
+			node_add(t, leaf2);
+		}
+	} else {
+		rc = KSI_TLV_appendNestedTlv(tlv, nc);
+		if (rc != KSI_OK) { vh_viol("tlv.appendNestedTlv:refused", tdesc, "KSI_TLV_appendNestedTlv res=0x%x", rc); KSI_TLV_free(nc); node_free(leaf); leaf = NULL; goto done; }
+		node_add(t, leaf);
+	}
+	measure(t);
+	{
+		unsigned char *exp = NULL, *b = NULL; size_t n = 0, l = 0;
+		if (t->fits) { exp = malloc(t->elen + 8); enc(t, exp, NULL); n = t->elen; }
+		if (collapse) {
+			const unsigned char *p2 = NULL; size_t l2 = 0;
+			rc = KSI_TLV_getRawValue(tlv, &p2, &l2);
+			vh_eval++;
+			if (t->fits && t->kids_fit && t->clen <= 0xffff) {
+				if (rc != KSI_OK) vh_viol("tlv.edit:getRawValue:fitting-tree:refused", tdesc, "KSI_TLV_getRawValue on the edited element res=0x%x", rc);
+				else if (l2 != t->clen || (l2 && memcmp(p2, exp + t->hl, l2))) vh_viol("tlv.edit:getRawValue:wrong-payload", tdesc, "payload of the edited element: %zu bytes, reference %zu (or bytes differ)", l2, t->clen);
+			} else if (rc == KSI_OK && l2 > 0xffff) vh_viol("tlv.edit:getRawValue:oversize:accepted", tdesc, "KSI_TLV_getRawValue hands out %zu payload bytes", l2);
+		}
+		rc = KSI_TLV_serialize(tlv, &b, &l);
+		judge("tlv.edit", collapse ? "parse+edit+KSI_TLV_getRawValue+KSI_TLV_serialize" : "parse+edit+KSI_TLV_serialize", 0, exp, n, !t->fits, over_size(t), (size_t)1 << 19, rc, rc == KSI_OK ? b : NULL, l);
+		if (rc == KSI_OK) { KSI_free(b); if (t->fits) vh_count("tree_edits_ok", 1); }
+		free(exp);
+	}
+	/* restore the model */
+	if (op == 2) { t->nk--; node_free(t->kid[t->nk]); }
+	if (op >= 1) { t->kid[j] = old; node_free(leaf); } else { t->nk--; node_free(leaf); }
+	leaf = NULL; old = NULL;
+	measure(t);
+done:
+	KSI_TLV_free(tlv);
+	free(pv);
+}
+
 static void mutate_checks(Node *t, const unsigned char *E) {
 	size_t i, j, pick = (size_t)-1; KSI_TlvElement *el = NULL, *rem = NULL; unsigned char *in; int rc; Node *removed;
 	unsigned char *exp, *o; size_t n, l;
@@ -780,7 +869,7 @@ static void run_tree(Node *t) {
 	}
 	if (E && (what & W_PARSE)) { case_set(tdesc); parse_all(E, t->elen); perturb(E, t->elen); }
 	if (E && (what & W_STREAM)) { case_set(tdesc); stream_checks(E, t->elen, t->elen < 64 || (ntrees % 8) == 0); }
-	if (E && (what & W_MUTATE)) { case_set(tdesc); mutate_checks(t, E); }
+	if (E && (what & W_MUTATE)) { case_set(tdesc); mutate_checks(t, E); case_set(tdesc); tlv_edit_checks(t, E); }
 	free(full);
 }
 
